@@ -24,7 +24,7 @@ CHECKS = {
         'For constructors, operator overloads and set_units the tie is differential testing; the theorems are about the model.',
         '4.17'),
     'C03': (
-        'Coq proof of the ledger invariant for both scheduler models (abstract step machine refined by the recursive pass) + verified boolean oracle evaluated on the rows returned by the implementation + _ResourceUsage.reserved translated from the source text on every run and proved equal to the model\'s booked/used (gen/SrcSched.v, C03_src_reserved_*)',
+        'Coq proof of the ledger invariant for both scheduler models (abstract step machine refined by the recursive pass) + verified boolean oracle evaluated on the rows returned by the implementation + the usage ledger and both fill loops of schedule.py translated from the source text on every run and proved equal to the model (gen/SrcSched.v, gen/SrcFill.v; C03_src_*: reserved = used, reserve, fwd/bwd shift, the translated loops keep the ledger within capacity)',
         'Theorems (Props_C03.v): for every WBS, capacity function >= 0, balance setting, bound and clock, every row of the '
         'forward/backward model schedule is a positive amount on its task\'s resource on a day with capacity and the day\'s '
         'bookings never exceed the capacity; the oracle c03_b is proved equivalent to that statement and is evaluated on what '
@@ -58,7 +58,7 @@ CHECKS = {
         'column order of the usage table (iteration order of a Python set) is observed, not modelled.',
         '4.20'),
     'C09': (
-        'Coq proof of an invariant of the abstract scheduling machine refined by the backward pass (deadline, dependencies incl. inherited ones, date encoding, late packing) + reflection of the boolean oracle evaluated on the implementation\'s schedules + exact differential correspondence on the dyadic grid',
+        'Coq proof of an invariant of the abstract scheduling machine refined by the backward pass (deadline, dependencies incl. inherited ones, date encoding, late packing) + reflection of the boolean oracle evaluated on the implementation\'s schedules + exact differential correspondence on the dyadic grid + the backward search/fill primitives translated from the source text on every run and proved equal to the model (gen/SrcFill.v, C09_src_*)',
         'Theorems (Props_C09.v, closed under the global context; hypotheses WFin w, cap_nonneg, no user-fixed dates, backward = Ok): no task ends after the project end; '
         'every own or inherited dependency has predecessor end <= successor start (also seen from below a dependant summary); both date formulas for both balance settings, leaves without work included; '
         'with balancing on the days between end and due date and between two work days are fully booked in the final ledger; c09_b is equivalent to the Prop statement and the model\'s output passes it. '
@@ -104,12 +104,12 @@ CHECKS = {
         'Trusted: Coq kernel + vm_compute, hand-written model, harness; ASSUMPTIONS: the Mermaid line grammar and entity codes (#NN;), "an HTML element ends at its first closing tag", JSON as json.dumps writes it - no JavaScript engine offline to validate them.',
         '4.19'),
     'C08': (
-        'Coq proof of tightness, date encoding, WBS order and removal-independence for the forward pass (machine invariants; order by induction on the recursive pass; independence by a simulation between two runs) + two-way reflection of the oracle + exact differential correspondence (dates, row order) and a direct with/without-task comparison on the implementation',
+        'Coq proof of tightness, date encoding, WBS order and removal-independence for the forward pass (machine invariants; order by induction on the recursive pass; independence by a simulation between two runs) + two-way reflection of the oracle + exact differential correspondence (dates, row order) and a direct with/without-task comparison on the implementation + the forward search/fill primitives translated from the source text on every run and proved equal to the model (gen/SrcFill.v, C08_src_*)',
         'Theorems (Props_C08.v, closed): C08_tight / C08_tight_leaves (balancing on: resource fully booked from the release day up to the last work day, in the FINAL ledger), C08_encode (both date formulas, any clock), C08_order (unlinked leaves served in WBS order), '
         'C08_indep / C08_indep_set (balancing off: deleting - or blanking - any unrelated set of tasks, closed under hierarchy and links: isolated leaves, linked clusters, whole subtrees - leaves every other task\'s dates unchanged; the second run need not be assumed), c08_task_b (incl. leaves without work) / c08_order_b <-> statements, model output passes the oracle.',
         SCHED_TRUST + ' Leaves with user-fixed start or end are outside the C08 theorems (free_leaf).', '4.8'),
     'C14': (
-        'Coq proof that both scheduler models answer Ok or Err and never Crash under WFin (fuel suffices, no None arithmetic, no empty max/min, divisors positive), that each unschedulable class answers Err and that Err has no other cause (completeness) + outcome-class correspondence incl. an extra stream of unschedulable inputs; recursion depth probed on the implementation (known finding)',
+        'Coq proof that both scheduler models answer Ok or Err and never Crash under WFin (fuel suffices, no None arithmetic, no empty max/min, divisors positive), that each unschedulable class answers Err and that Err has no other cause (completeness) + outcome-class correspondence incl. an extra stream of unschedulable inputs; recursion depth probed on the implementation (known finding) + the four day-by-day loops translated from the source text on every run: proved to end within their fuel and to raise nothing but RuntimeError (gen/SrcFill.v, C14_src_*_outcome)',
         'Theorems (Props_C14.v, closed): C14_total_forward/backward, C14_compute_no_crash, C14_divisors_positive, C14_err_isolated / _future_end / _no_capacity / _cycle / _hierarchy_cycle, C14_reentry, C14_err_causes_*, C14_complete_* (Err only from the four causes, read as: no reachable machine state is stuck). '
         'Known finding F16 (chains deeper than the interpreter recursion limit raise RecursionError) is probed on every run and reported as KNOWN-FINDING; the model has no interpreter stack.',
         SCHED_TRUST, '4.14'),
